@@ -47,14 +47,23 @@ def body_large(ctx: H.BaseCtx):
     shape = tuple(case["shape"])
     g, r = case["graded"], case["reverse"]
     rs = numpy.random.RandomState(case["k"])
-    names = ("q0", "q1")
-    monos = [(1, 0), (0, 1), (0, 0), (1, 1)]
+    nn = case.get("nnames", 2)
+    names = tuple("q%d" % i for i in range(nn))
+    if nn == 2:
+        monos = [(1, 0), (0, 1), (0, 0), (1, 1)]
+    else:
+        # many declared indeterminates, exponents on both sides of 128 / 256 in the last and the first one
+        unit = lambda i, v: tuple(v if j == i else 0 for j in range(nn))
+        monos = [unit(nn - 1, 200), unit(nn - 1, 3), unit(0, 255), unit(0, 1), tuple([0] * nn), tuple(199 if j == nn - 2 else (1 if j == nn - 1 else 0) for j in range(nn)),
+                 tuple(1 if j == nn - 2 else (199 if j == nn - 1 else 0) for j in range(nn))]
+        if case.get("beyond_byte"):
+            monos.append(unit(nn - 1, 300))  # (with and without an exponent past one byte: packing schemes switch on the largest value)
     coef = {m: rs.randint(-3, 4, size=shape) * (rs.rand(*shape) < 0.6) for m in monos}
     p = numpoly.ndpoly(exponents=[list(m) for m in monos], shape=shape, names=names, dtype=int)
     for key, m in zip(p.keys, monos):
         p.values[key] = coef[m]
     ranked = sorted(monos, key=lambda m: order_key(tuple((n, e) for n, e in zip(names, m) if e), names, g, r))  # ascending
-    want_e = numpy.zeros(shape + (2,), dtype=int)
+    want_e = numpy.zeros(shape + (nn,), dtype=int)
     want_c = numpy.zeros(shape, dtype=int)
     for m in ranked:  # later (larger) monomials overwrite
         nz = coef[m] != 0
@@ -301,6 +310,10 @@ def gen_cases(tier: str, seed: int) -> List[Dict]:
     for k, shape in enumerate([(257,), (65537,), (70001,), (300, 300)] if not quick else [(257,), (70001,), (260, 260)]):
         g, r = flags[k % 4]
         add("large", dummy, shape=list(shape), graded=g, reverse=r, k=k)
+    for k, nn in enumerate((7, 8, 9, 16)):
+        for g, r in flags if not quick else flags[k % 2::2]:
+            add("large", dummy, shape=[6], graded=g, reverse=r, k=100 + k, nnames=nn)
+            add("large", dummy, shape=[6], graded=g, reverse=r, k=200 + k, nnames=nn, beyond_byte=True)
     # dropping every term (all terms involve a dropped indeterminate)
     for shape in [(), (2,)]:
         add("set_dimensions", S.make_poly_spec("a", ("q0", "q1"), [[0, 1], [1, 1]], shape, rng, 3, zero_prob=0.0, literal_prob=0.2, mode="raw"), dimensions=1)
